@@ -117,7 +117,12 @@ pub fn fake_sys_now() -> std::time::SystemTime {
         secs: i64,
         nanos: u32,
     }
-    unsafe { std::mem::transmute::<Raw, std::time::SystemTime>(Raw { secs: SYS_NOW.0, nanos: SYS_NOW.1 }) }
+    unsafe {
+        std::mem::transmute::<Raw, std::time::SystemTime>(Raw {
+            secs: SYS_NOW.0,
+            nanos: SYS_NOW.1,
+        })
+    }
 }
 pub fn set_sys_now(secs: i64, nanos: u32) {
     unsafe { SYS_NOW = (secs, nanos) }
@@ -128,14 +133,21 @@ pub fn set_sys_now(secs: i64, nanos: u32) {
 // harness that can reach a `tracing::*!` event stubs the three entry points of that machinery with
 // the answers they give when no subscriber is installed.  `tracing_off!` in each harness file adds
 // the attributes.
-pub fn tracing_never_enabled(_m: &tracing::Metadata<'static>, _i: tracing::subscriber::Interest) -> bool {
+pub fn tracing_never_enabled(
+    _m: &tracing::Metadata<'static>,
+    _i: tracing::subscriber::Interest,
+) -> bool {
     false
 }
-pub fn tracing_interest_never(_c: &tracing::__macro_support::MacroCallsite) -> tracing::subscriber::Interest {
+pub fn tracing_interest_never(
+    _c: &tracing::__macro_support::MacroCallsite,
+) -> tracing::subscriber::Interest {
     tracing::subscriber::Interest::never()
 }
-pub fn tracing_no_dispatch<'a>(_m: &'static tracing::Metadata<'static>, _f: &tracing::field::ValueSet<'a>)
-where
+pub fn tracing_no_dispatch<'a>(
+    _m: &'static tracing::Metadata<'static>,
+    _f: &tracing::field::ValueSet<'a>,
+) where
     'a: 'a,
 {
 }
